@@ -23,8 +23,8 @@ class C14:
             'distinct by (function, points, reduction, knees, tx, ty, extremes)')
     assumptions = ['indices < 2^53, so int((right-left)/number_points) (float division, truncation) is integer division — the model uses integer division',
                    'add_points_even_knees with an EMPTY knee array raises IndexError at knees[0] (the gap to the first knee is undefined); such cases are '
-                   'generated, counted (histogram outcome) and classed outside the domain (agree code 6)',
-                   'curves with constant x or y raise ZeroDivisionError (outside the property\'s domain "non-constant x and y"); counted as outside']
+                   'generated and classed outside the domain (agree code 6, counted in outside_domain)',
+                   'curves with constant x or y raise ZeroDivisionError (outside the property\'s domain "non-constant x and y"); counted in outside_domain']
     trusted = ['modelled: postprocessing.add_points_even, add_points_even_knees, filter_worst_knees (local running-minimum definition), rdp.mapping (C07 model)',
                'ndarray.max/min over the curve modelled by NpList.np_max / np_min; math.ceil by Num.ceilZ; np.unique by NpList.np_unique']
     timeout = 20.0
